@@ -1,6 +1,7 @@
 import Nstd.Callback.LemmasMonitor
 import Nstd.Callback.LemmasFuel
 import Nstd.Callback.LemmasGhost
+import Nstd.Callback.LemmasTerm
 /-
   Property C12 — signals reach exactly the connected slots, safely under re-entrancy.
 
@@ -132,7 +133,7 @@ theorem never_invoked_unless_listed (P : Prog) (ne nl fuel : Nat) (ops : List Ac
       (runOps monitored P fuel (Run.init State.fresh ne nl) ops).log =
         (runOps machine P fuel (Run.init State.fresh ne nl) ops).log := by
   have h0 : RunRel SimM [] (Run.init State.fresh ne nl) (Run.init State.fresh ne nl) :=
-    ⟨⟨rfl, fun k hk => by simp at hk, SState.fresh, [], sim_init, rfl⟩, ⟨rfl, rfl, rfl, rfl, rfl⟩, rfl, rfl, rfl, rfl⟩
+    ⟨⟨rfl, fun k hk => by simp at hk, SState.fresh, [], sim_init, rfl⟩, ⟨rfl, rfl, rfl, rfl, rfl⟩, rfl, rfl, rfl, rfl, fun hh => hh⟩
   have h := runOps_relM P fuel ops h0
   exact ⟨h.bad₁, h.sim.1, h.log⟩
 
@@ -215,6 +216,20 @@ theorem fuel_irrelevant (P : Prog) (ne nl n : Nat) (ops : List Action)
     runOps machine P n' (Run.init State.fresh ne nl) ops = runOps machine P n (Run.init State.fresh ne nl) ops :=
   runOps_fuel_mono machine P n ops _ h n' hn
 
+/-- **Termination.**  A program given by a finite script table (what the harness can express:
+    each cell (listener, slot, invocation#) holds a finite script and is consumed by at most one
+    invocation) terminates: some fuel is enough for the model to run every top-level action to
+    completion, and every larger fuel gives the same run.  (Proved on the specification, whose
+    emission loop walks a snapshot that gets shorter, and carried over by the simulation.) -/
+theorem terminates (T : Table) (ne nl : Nat) (ops : List Action) :
+    ∃ fuel, (runOps machine (Prog.ofTable T) fuel (Run.init State.fresh ne nl) ops).oof = false ∧
+      ∀ fuel', fuel ≤ fuel' →
+        runOps machine (Prog.ofTable T) fuel' (Run.init State.fresh ne nl) ops =
+          runOps machine (Prog.ofTable T) fuel (Run.init State.fresh ne nl) ops := by
+  obtain ⟨n, hn⟩ := spec_runOps_terminates T ops (Run.init SState.fresh ne nl) rfl
+  have h := (runOps_rel (Prog.ofTable T) n ops (init_rel ne nl)).oof hn
+  exact ⟨n, h, fun n' hn' => runOps_fuel_mono machine _ n ops _ h n' hn'⟩
+
 /-- **The node numbers are ghosts.**  `Slot.node` (the identity of a list node, used by the proofs
     to speak about "the same connection") influences nothing: `machine0` is the model whose
     `connect` stores node 0 and never advances the allocation counter; for every program its run
@@ -227,7 +242,7 @@ theorem node_is_ghost (P : Prog) (ne nl fuel : Nat) (ops : List Action) :
         (runOps machine P fuel (Run.init State.fresh ne nl) ops).m.strip := by
   have h0 : RunRel SimG [] (Run.init State.fresh ne nl) (Run.init State.fresh ne nl) :=
     ⟨⟨fresh_strip.symm, fun k hk => by simp at hk, Spec.SState.fresh, [], sim_init, rfl⟩,
-      ⟨rfl, rfl, rfl, rfl, rfl⟩, rfl, rfl, rfl, rfl⟩
+      ⟨rfl, rfl, rfl, rfl, rfl⟩, rfl, rfl, rfl, rfl, fun hh => hh⟩
   have h := runOps_relG P fuel ops h0
   exact ⟨h.log.symm, h.sim.1⟩
 
